@@ -358,6 +358,30 @@ def rule_bufbind(ctx, prop: str) -> RuleResult:
     return res
 
 
+def _marker_anchor_renamed(f: Func, marker: str) -> Optional[str]:
+    """A row's marker may name a local of the function (`hi.val`, `post_FV`).  If that identifier does not
+    occur in the function at all any more, the local was renamed: the row has to be re-confirmed
+    (ANALYSIS-ERROR), it is not evidence that the condition was dropped."""
+    import re as _re
+    import keyword as _kw
+
+    names = {n.id for n in ast.walk(f.node) if isinstance(n, ast.Name)} | {a.arg for n in ast.walk(f.node) if isinstance(n, ast.arguments) for a in n.args + n.kwonlyargs}
+    for m_ in _re.finditer(r"(?<![\w.])([A-Za-z_]\w*)", marker):
+        ident = m_.group(1)
+        if _kw.iskeyword(ident) or ident[0].isupper() or ident in ("len", "isinstance", "self", "not", "is", "None"):
+            continue
+        # identifiers that are called or are attribute names are not locals
+        rest = marker[m_.end():]
+        if rest.startswith("("):
+            continue
+        if ident in getattr(f.module, "funcs", {}) or ident in getattr(f.module, "imports", {}) or ident in getattr(f.module, "classes", {}) or ident in getattr(f.module, "assigns", {}):
+            continue  # a module-level helper / import, not a local of the function
+        if ident not in names:
+            return ident
+    return None
+
+
+
 def rule_condspec(ctx, prop: str) -> RuleResult:
     """Accepting conditions must imply their specification (propositional check over the
     syntactic atoms of the condition, by truth table — no solver).  `accept` rows: the
@@ -524,6 +548,9 @@ def rule_condspec(ctx, prop: str) -> RuleResult:
                     res.add(Finding("CONDSPEC", file, f.lineno, qn, marker, f"`{must}…)` is gone from {qn}: {why}"))
                 continue
         elif not cands:
+            _ren = _marker_anchor_renamed(f, marker)
+            if _ren is not None:
+                raise AnalysisError(f"CONDSPEC row {qn}/{marker}: the local `{_ren}` the row is anchored on no longer exists in {qn} (renamed?): re-confirm the row")
             res.instances += 1
             res.ob(False)
             res.add(Finding("CONDSPEC", file, f.lineno, qn, marker, f"no condition mentioning `{marker}` is left in {qn}: {why}"))
@@ -602,6 +629,9 @@ def rule_condspec(ctx, prop: str) -> RuleResult:
 
         cands = [n for n in f.body_nodes() if isinstance(n, ast.If) and marker in ast.unparse(n.test) and (mode == "accept" or rejects(n.body))]
         if not cands:
+            _ren = _marker_anchor_renamed(f, marker)
+            if _ren is not None:
+                raise AnalysisError(f"CONDSPEC row {qn}/{marker}: the local `{_ren}` the row is anchored on no longer exists in {qn} (renamed?): re-confirm the row")
             # the guard disappeared altogether
             res.instances += 1
             res.ob(False)
